@@ -43,10 +43,6 @@ h_hs_parse(void)
 
 	rc = humansize_parse(str, out);
 
-	/* (the contract's postconditions, restated for the native replay) */
-	__CPROVER_assert(!(rc == 0) || (HS_ACCEPT(g_hs) && (hs_wide_t)*out == HS_VALUE(g_hs) && str[g_hs.i] == '\0'),
-	    "C16 humansize_parse: accepted => automaton accepts at the NUL and the size is digits * 1000^k < 2^64");
-
 	VCOVER(rc == 0 && g_hs.st == HS_SD && *out > 1000000);
 	VCOVER(rc == 0 && g_hs.st == HS_SS);
 	VCOVER(rc == 0 && g_hs.st == HS_SP && g_hs.k == 6 && *out == 18000000000000000000ULL);	/* "18E" */
